@@ -357,12 +357,21 @@ def _inline_adjacent_temporaries(tree: ast.AST) -> None:
                 while i < len(st) - 1:
                     a, nxt = st[i], st[i + 1]
                     if isinstance(a, ast.Assign) and len(a.targets) == 1 and isinstance(a.targets[0], ast.Name) and not isinstance(a.value, ast.Constant) \
-                            and all(isinstance(x, _PURE_NODES) for x in ast.walk(a.value)) and isinstance(nxt, (ast.Assign, ast.Expr, ast.Return, ast.AugAssign)):
+                            and not any(isinstance(x, (ast.Yield, ast.YieldFrom, ast.Await, ast.NamedExpr)) for x in ast.walk(a.value)) \
+                            and isinstance(nxt, (ast.Assign, ast.Expr, ast.Return, ast.AugAssign)):
                         t = a.targets[0].id
                         if t not in params and stores.get(t) == 1 and loads.get(t) == 1:
                             reads = [x for x in ast.walk(nxt) if isinstance(x, ast.Name) and x.id == t and isinstance(x.ctx, ast.Load)]
                             scoped = any(isinstance(x, (ast.Lambda, ast.ListComp, ast.SetComp, ast.DictComp, ast.GeneratorExp)) and any(y is reads[0] for y in ast.walk(x))
                                          for x in ast.walk(nxt)) if reads else True
+                            pure = all(isinstance(x, _PURE_NODES) for x in ast.walk(a.value))
+                            if len(reads) == 1 and not scoped and not pure:
+                                # a value that calls something is folded only where hoisting would have taken it from: a direct argument of the call
+                                # (or the returned / assigned value itself) of the next statement
+                                nv = getattr(nxt, 'value', None)
+                                direct = nv is reads[0] or (isinstance(nv, ast.Call) and (any(x is reads[0] for x in nv.args) or any(k.value is reads[0] for k in nv.keywords)))
+                                if not direct:
+                                    scoped = True
                             if len(reads) == 1 and not scoped:
                                 val = a.value
 
